@@ -179,6 +179,12 @@ var compiledNamed = map[string][]func(string) templ.CSSClass{
 	"font-family":      {func(v string) templ.CSSClass { return clsFontFamilyNamed(colour(v)) }},
 }
 
+// css components whose parameter is the trusted type: rendered before the untrusted ones with the same text
+var compiledTrusted = map[string]func(string) templ.CSSClass{
+	"color":            func(v string) templ.CSSClass { return clsColorTrusted(templ.SafeCSSProperty(v)) },
+	"background-image": func(v string) templ.CSSClass { return clsBackgroundImageTrusted(templ.SafeCSSProperty(v)) },
+}
+
 func checkPair(prop, value string, compiled bool) {
 	evals.Add(1)
 	want := expectName(prop)
@@ -205,7 +211,9 @@ func checkPair(prop, value string, compiled bool) {
 	} else if pr := styleElementProblem(".a{" + d1 + "}"); pr != "" {
 		report("safehtml.SanitizeCSS", prop, value, d1, pr)
 	}
-	// 2. templ.SanitizeCSS (what css components call)
+	// 2. templ.SanitizeCSS (what css components call); history: the same text passed as trusted templ.SafeCSSProperty
+	// just before (emitted unchanged, by contract) must not change what the plain string gets
+	templ.SanitizeCSS(prop, templ.SafeCSSProperty(value))
 	d2 := string(templ.SanitizeCSS(prop, value))
 	if d2 != d1 {
 		if pr := cssProblem(d2, want); pr != "" {
@@ -229,6 +237,9 @@ func checkPair(prop, value string, compiled bool) {
 	compiledRenders.Add(1)
 	checkStyleAttr("compiled style={map}", prop, value, render(StyleMap(map[string]string{prop: value})), want)
 	checkStyleAttr("compiled style={kv}", prop, value, render(StyleKV(templ.KV(prop, value))), want)
+	if f, ok := compiledTrusted[prop]; ok {
+		render(UseClass(f(value))) // trusted parameter type first: not checked, must not influence what follows
+	}
 	var fs []func(string) templ.CSSClass
 	if f, ok := compiledClass[prop]; ok {
 		fs = append(fs, f)
